@@ -46,7 +46,7 @@ REQUIRED_BRANCHES = ['mode_interp', 'mode_largest', 'mode_largest+smallest', 'mo
                      'repeated_filter_aperture', 'distinct_filter_apertures', 'two_sources', 'ext_unit_micron', 'ext_unit_other',
                      'ext_unit_other_file_av_nonzero', 'cube_names_unsorted', 'aperture_list_of_one', 'two_apertures',
                      'selector_N', 'selector_other', 'plot_max', 'plot_mode_I', 'sources_subset', 'form_fitfile',
-                     'filter_units_other', 'av_range_not_from_zero', 'several_laws_same_package', 'later_law_av_nonzero', 'flux_unit_mJy', 'flux_unit_other', 'best_fit_tied', 'aperture_equal_smallest', 'ext_route_deepcopy', 'ext_route_pickle', 'ext_route_table', 'plot_opts_positional',
+                     'filter_units_other', 'av_range_not_from_zero', 'several_laws_same_package', 'later_law_av_nonzero', 'flux_unit_mJy', 'flux_unit_other', 'best_fit_tied', 'aperture_equal_smallest', 'nearly_equal_filter_apertures', 'ext_route_deepcopy', 'ext_route_pickle', 'ext_route_table', 'plot_opts_positional',
                      'plot_opts_memmap_off', 'plot_opts_show_convolved', 'aperture_table_in_AU', 'aperture_table_other_unit_cube', 'aperture_table_other_unit_per_file',
                      'per_file_package', 'seds_in_subdirs', 'seds_flat',
                      'subdir_shared_by_models', 'name_shorter_than_subdir', 'name_as_long_as_subdir', 'stored_increasing_wav', 'stored_decreasing_wav']
@@ -108,6 +108,10 @@ def gen_case(rng, directed=None):
         theta[1] = theta[0]
     else:
         theta = pool[:nf]
+    # two filters whose apertures differ by 1e-3 .. 4e-3 arcsec: different apertures, however close
+    near = bool(directed.get('near', rng.random() < 0.2))
+    if near:
+        theta[1] = round(theta[0] + rng.choice([1e-3, 2e-3, 3e-3, 4e-3]), 6)
     # extinction law: decreasing opacity with wiggles; |k| stays of order 1 over the SED (an arbitrary table could
     # give k ~ -1000 and 10**(av*k) would underflow: outside anything the fitter is used for)
     nt = rng.randint(3, 10)
@@ -237,7 +241,7 @@ def gen_case(rng, directed=None):
 
 
 FLUX_TO_MJY = {'mJy': 1., 'Jy': 1000., 'uJy': 1e-3}
-PLAIN = dict(on_knot=False, ext_route='direct', plot_opts='keywords', pkg='cube', ap_table_unit='AU', n_laws=1, flux_unit='mJy', dup=False, select='N', plot_max=None, plot_mode='A', subset=None, wav_unit='micron', ap_unit='arcsec', av_lo=0.)
+PLAIN = dict(near=False, on_knot=False, ext_route='direct', plot_opts='keywords', pkg='cube', ap_table_unit='AU', n_laws=1, flux_unit='mJy', dup=False, select='N', plot_max=None, plot_mode='A', subset=None, wav_unit='micron', ap_unit='arcsec', av_lo=0.)
 DIRECTED = [
     dict(PLAIN, multi=False, napkind='none', k=1, forms=['object', 'file'], nsrc=1, stored='inc', repeat=False, ext_unit='micron'),
     dict(PLAIN, multi=True, napkind='many', k=1, forms=['object', 'file'], nsrc=1, where='inside', stored='dec', repeat=False, ext_unit='micron'),
@@ -280,6 +284,8 @@ DIRECTED = [
     dict(PLAIN, on_knot=True, multi=True, napkind='two', k=3, forms=['fitfile'], nsrc=2, repeat=True, plot_opts='positional', ext_route='pickle'),
     dict(PLAIN, on_knot=True, pkg='per_file', subdir=1, multi=True, napkind='many', k=1, forms=['object'], nsrc=1, plot_opts='memmap_off', ext_route='table'),
     dict(PLAIN, multi=True, napkind='many', k=3, forms=['file'], nsrc=1, where='inside', plot_opts='show_convolved'),
+    dict(PLAIN, near=True, multi=True, napkind='many', k=3, forms=['object', 'file'], nsrc=1, where='inside', repeat=False),
+    dict(PLAIN, near=True, multi=False, napkind='none', k=2, forms=['object'], nsrc=1, repeat=True),
 ]
 
 
@@ -803,6 +809,8 @@ def _run_law(case, d, li, branches, key):
         if multi and any(t * 10. ** float(a_['sc'][0]) * 1000. == aps[0] for _, recs_ in built.values() for a_ in recs_
                          for t in theta_eff(case)):
             branches.add('aperture_equal_smallest')
+        if any(0 < abs(x - y) < 0.005 for i_, x in enumerate(case['theta']) for y in case['theta'][i_ + 1:]):
+            branches.add('nearly_equal_filter_apertures')
         branches.add('ext_route_' + case.get('ext_route', 'direct'))
         branches.add('plot_opts_' + case.get('plot_opts', 'keywords'))
         branches.add('flux_unit_mJy' if (case.get('flux_unit') or 'mJy') == 'mJy' else 'flux_unit_other')
